@@ -463,3 +463,12 @@ def items_binding(target: ast.AST, it: ast.AST) -> Optional[Tuple[Optional[str],
 
 def mentions(e: ast.AST, name: str) -> bool:
     return name in names_in(e)
+
+
+def _walk(node):
+    """ast.walk over one statement without descending into compound statement bodies"""
+    if isinstance(node, (ast.If, ast.While)):
+        node = node.test
+    elif isinstance(node, ast.For):
+        node = node.iter
+    return ast.walk(node)
